@@ -160,10 +160,10 @@ pub fn spec(id: &str) -> Option<PropSpec> {
         "C06" => PropSpec {
             id: "C06",
             level: "exploration",
-            families: vec![(Family::C06, 68), (Family::C14, 17), (Family::C13X, 15)],
+            families: vec![(Family::C06, 68), (Family::C14, 17), (Family::C13X, 15), (Family::C06L, 0)],
             quick_runs: 28_000,
             thorough_runs: 2_000_000,
-            rule: "Part of the runs come from the enumerating family C13X (every short sequence of start / drop / acknowledge / back-pressure events against three senders, see C13), judged by the same oracle; one run = sends with automatic and caller-chosen ids acknowledged by a peer that is correct or injects one deviation (reordered id, wrong ack type, duplicate, unknown id, unsolicited); reference model = FIFO of outstanding exchanges seen on the wire; oracle: Ok only after a matching ack of the right type was sent, contents equal, ids of outstanding sends distinct and non-zero, deviation ends the connection, correct peer never does; distinct = distinct abstract history signature; non-trivial = a deviation was actually delivered, or two or more exchanges were outstanding together",
+            rule: "Thorough tier only: 16 runs of the long-history family C06L - three senders make more than 65 536 sends (QoS 1, now and then exactly-once or subscribe) over one connection with a window of 1..16, so that the 16-bit identifier counter wraps with exchanges outstanding; linear-time oracle: identifiers non-zero and never carried by two exchanges at once, every send completes with the acknowledgement of its own identifier, no panic, the connection stays up. Part of the runs come from the enumerating family C13X (every short sequence of start / drop / acknowledge / back-pressure events against three senders, see C13), judged by the same oracle; one run = sends with automatic and caller-chosen ids acknowledged by a peer that is correct or injects one deviation (reordered id, wrong ack type, duplicate, unknown id, unsolicited); reference model = FIFO of outstanding exchanges seen on the wire; oracle: Ok only after a matching ack of the right type was sent, contents equal, ids of outstanding sends distinct and non-zero, deviation ends the connection, correct peer never does; distinct = distinct abstract history signature; non-trivial = a deviation was actually delivered, or two or more exchanges were outstanding together",
             nontrivial: nt_c06,
             assumptions: base,
         },
